@@ -353,6 +353,17 @@ def run_property(prop, tier, seed, impl="py", only=None):
                                            "input was found by native search", "solver_model": model}, h.idealised)
                 handle_failure(rep, prop, h, cname, lab, f["inputs"], p2, known, reproduced=True, rerun=rr,
                                detail=f["detail"])
+            elif any("uninterpreted real function" in t for t in res.get("trusted", [])):
+                # sqrt / pow / cos ... are uninterpreted in the VC: a model that does not replay and no failing
+                # input found natively means the solver used a non-standard interpretation - undecided
+                rep.standins.append({"harness": h.id, "case": cname, "cases": found.get("pass", 0),
+                                     "skipped": found.get("skip", 0), "exhaustive": False, "bound": T["standin"],
+                                     "reason": "solver model relies on uninterpreted transcendental functions and "
+                                               "does not replay; obligation '%s' not decided deductively" % lab})
+                for o in rep.obligations:
+                    if o["harness"] == h.id and o["case"] == cname and o["status"] == "refuted":
+                        o["status"] = "unknown"
+                        o["detail"] = "sat only under a non-standard interpretation of uninterpreted functions"
             else:
                 handle_failure(rep, prop, h, cname, lab, model, path, known, reproduced=False, rerun=rr,
                                detail="native replay: " + r["status"])
